@@ -34,7 +34,7 @@ fn usable<Q: QueueLike>(q2: &Q, m: &Model, cfg: &Cfg, what: &str) -> Result<u64,
     check_deep(q2, m, false).map_err(|e| format!("{what}: {e}"))?;
     let any: AnyQ<Q::H> = any_of(q2.clone());
     let mut ops = vec![];
-    gen_ops(cfg, Q::DOUBLE, m, true, &mut ops);
+    gen_ops_for(cfg, Q::DOUBLE, m, &s2, true, &mut ops);
     let mut n = 0;
     for op in &ops {
         n += 1;
@@ -150,11 +150,11 @@ pub fn run_c15<H: HB>(tier: Tier) -> Outcome {
         return out;
     }
     // deep seeds
-    for n in if q { vec![8usize, 16] } else { vec![7, 8, 9, 16, 17, 33] } {
+    for n in if q { vec![8usize, 16, 65, 128] } else { vec![7, 8, 9, 16, 17, 33, 64, 65, 127, 128, 129, 257, 512, 1025] } {
         let t0 = Instant::now();
         let mut c = seeds_cfg(prop, n, &REL_TERN, 0);
         c.deep = false;
-        let seeds = if n <= 8 { f_bin(n) } else { f_seg(n) };
+        let seeds = if n <= 8 { f_bin(n) } else if n > 40 { f_large(n) } else { f_seg(n) };
         let mut ex = Explorer::<H>::new(&c);
         ex.collect = Some(Default::default());
         let mut roots = vec![];
@@ -168,6 +168,7 @@ pub fn run_c15<H: HB>(tier: Tier) -> Outcome {
         out.absorb(&format!("E2 seeds of {n} elements"), &ex, t0);
         let mut ucfg = seeds_cfg(prop, n, &[5, 15, 35], A_PUSH | A_CHANGE | A_REMOVE | A_POP);
         ucfg.deep = false;
+        ucfg.large = n > 40;
         let uni = c.universe();
         let t0 = Instant::now();
         let (cases, viol) = par_each(nodes.len(), th, |i| {
